@@ -53,7 +53,7 @@ CHECKS["C03"] = {
 CHECKS["C05"] = {
     "technique": "runtime monitoring: generated jump/handler programs in which every statement prints a unique trace token are run by the real code; the printed control-flow history, ERR values, variable values after RESUME and the final outcome are judged by the reference control semantics; context invariants walked at every statement boundary",
     "text": "Label/jump layouts in the main module: GOSUB nesting incl. RETURN label and RETURN without GOSUB, backward GOTOs, GOTO out of 1-3 nested FOR/WHILE/DO loops with distinct bounds and steps (landing inside an enclosing loop or outside), failing statements of every kind at first/middle/last position of FOR, WHILE, IF, ELSEIF and CASE blocks, inside GOSUB subroutines, inside a called SUB and inside a FUNCTION called in an expression, under every handler form (RESUME, RESUME NEXT, RESUME label, ON ERROR RESUME NEXT, ON ERROR GOTO 0, none) enabled and disabled in every order.",
-    "note": "Also generated: an ELSEIF condition, a non-first CASE expression or the NEXT increment failing, repaired by the handler and re-executed by RESUME; GOSUB/RETURN inside SUBs (RETURN without a GOSUB of its own, EXIT SUB with a GOSUB pending); RESUME label into a FOR body or SELECT CASE block. Also: RESUME / RESUME NEXT from inside the handler's own FOR and SELECT CASE blocks, handlers that fail (fatal), RETURN label across block depths. Not generated because the property does not define them or because of an open finding: RESUME NEXT after a failing block header, a handler left by GOTO, GOTO out of a GOSUB routine (KF-C15-2), RESUME label after an error inside a procedure.",
+    "note": "Also generated: an ELSEIF condition, a non-first CASE expression or the NEXT increment failing, repaired by the handler and re-executed by RESUME; GOSUB/RETURN inside SUBs (RETURN without a GOSUB of its own, EXIT SUB with a GOSUB pending); RESUME label into a FOR body or SELECT CASE block. Also: RESUME / RESUME NEXT from inside the handler's own FOR and SELECT CASE blocks, handlers that fail (fatal), RETURN label across block depths. Not generated because the property does not define them or because of an open finding: RESUME NEXT after a failing block header, a handler left by GOTO, GOTO out of a GOSUB routine (KF-C15-2). RESUME label after an error raised one to three calls deep is generated (the calls are abandoned, the GOSUBs of the main module stay pending), with the label at the top level of the main module only (KF-C15-1).",
     "design": "DESIGN.md section 2 C05",
 }
 CHECKS["C06"] = {
